@@ -156,6 +156,14 @@ def handler_preamble(chk, ex, funcs):
     chk.require_sat(f"{chk.prop}.{ex.kind}.pre_satisfiable", ex.st0.pc, desc="vacuity guard: the precondition of the handler exploration is satisfiable")
     if not ex.paths:
         chk.prove(f"{chk.prop}.{ex.kind}.pre_satisfiable", [], z3.BoolVal(False), desc=f"reachability: the {ex.kind} handler has at least one explored path")
+    if not getattr(chk, "_state_contracts_listed", False):
+        # the handler contracts are proved AGAINST the contracts of get_checkpoint_result and create_checkpoint: every check that uses them also
+        # discharges them against the real bodies (once per check), so that a change slipping between a caller and these callees is reported by the
+        # check of the property it breaks and not only by a sibling check
+        chk._state_contracts_listed = True
+        from . import state_contracts as _S
+        _S.lookup_faithful(chk, chk.prop)
+        _S.create_checkpoint(chk, chk.prop, want=("C03", "C06", "C10"))
     from .handlers import init_contract
     init_ok = init_contract(chk, ex)
     from .hreplay import attach_replay, crosscheck
